@@ -560,6 +560,22 @@ def stepArgs (w : World) (op : String) (a : Args) : World × String :=
             | .ok r => (w.put (a.getD "r" "tmp") { r with cache := none }, "ok")
             | .error er => (w, errLine er)
       else (w, "bad-op:mode")
+  | "set" => withMap w a fun m =>
+    -- `m[a:b:c] = value`: `__setitem__` with a slice = update_values_pix(arange(a, b, c), value)
+    let n := a.pos.headD ""
+    match ((a.getD "slice" "").splitOn ":").map String.toNat? with
+    | [some lo, some hi, some st] =>
+      if st == 0 then (w, errLine .value) else
+      let pix := (List.range ((hi - lo + st - 1) / st)).map fun i => lo + i * st
+      let v? : Option (Option (List Val)) :=
+        if a.flag "none" then some none else ((a.get? "val").bind parseVal).map fun v => some [v]
+      (match v? with
+       | none => (w, "bad-op:val")
+       | some v =>
+         match apiUpdate m "replace" pix v true with
+         | .ok m' => (w.put n m', "ok")
+         | .error e => (w.put n { m with cache := none }, errLine e))
+    | _ => (w, "bad-op:slice")
   | "vals" => withMap w a fun m => (w, showVals ((List.range m.npix).map m.abs))
   | "get" => withMap w a fun m =>
     let pix? : Option (List Nat) :=
